@@ -86,7 +86,22 @@ def check_state(eng, run):
                 ok_all = False
                 run.finding("C16.state", fn, node, "store to the per-client state that is not dominated by a test of the required predecessor state (an inconsistent transition would go unnoticed and two handlers could run)")
             else:
-                transitions.add((fact[4:].split(".")[-1], post.split(".")[-1]))
+                pre_s, post_s = fact[4:].split(".")[-1], post.split(".")[-1]
+                ps = [a.arg for a in fn.params()]
+                if pre_s in ps and post_s in ps:
+                    # one parameterised transition function (`__switch(expected=..., new=...)`): the transitions are its call sites
+                    pos = ps[1:] if fn.self_name else ps
+                    for m in cd.methods.values():
+                        if isinstance(m.node, ast.Lambda) or m is fn:
+                            continue
+                        for c in own_nodes(m.node):
+                            if isinstance(c, ast.Call) and isinstance(c.func, ast.Attribute) and mangle(cd.name, c.func.attr) == mangle(cd.name, fn.name) and dotted(c.func.value) == m.self_name:
+                                env = {pos[i]: ast.unparse(a) for i, a in enumerate(c.args) if i < len(pos)}
+                                env.update({k.arg: ast.unparse(k.value) for k in c.keywords if k.arg})
+                                if pre_s in env and post_s in env:
+                                    transitions.add((env[pre_s].split(".")[-1], env[post_s].split(".")[-1]))
+                else:
+                    transitions.add((pre_s, post_s))
         run.ob("C16.state", f"{fn.short}:guarded-store", all(f.startswith("pre:") for _, f in an.stores) and bool(an.stores))
     want = {("None", "TASK_PENDING"), ("TASK_PENDING", "TASK_RUNNING"), ("TASK_RUNNING", "None")}
     if transitions != want and ok_all:
@@ -486,11 +501,12 @@ def run(eng, run):
     from sa.anchors import verify as _verify_anchor_names
     _verify_anchor_names(eng, run)
     run.not_decided += NOT_DECIDED
-    check_state(eng, run)
-    check_single_and_atomic(eng, run)
-    check_fifo(eng, run)
-    check_handler_passthrough(eng, run)
-    check_nothing_dropped(eng, run)
+    run.attempt(check_state, eng, run)
+    run.attempt(check_single_and_atomic, eng, run)
+    run.attempt(check_fifo, eng, run)
+    run.attempt(check_handler_passthrough, eng, run)
+    run.attempt(check_nothing_dropped, eng, run)
+    run.end_of_rules()
 
 
 # ---------------------------------------------------------------------------------------------- self-test corpus
